@@ -43,6 +43,18 @@ def base_doc() -> dict:
                     ],
                     "responses": {"200": jresp(ref("Thing"), "resp text"), "404": {"description": "nf text"}},
                 },
+                "put": {
+                    # two request content types: the @overload / runtime-dispatch path of the method generator
+                    "operationId": "replaceThing",
+                    "tags": ["things"],
+                    "parameters": [
+                        {"name": "thingId", "in": "path", "required": True, "schema": {"type": "string"}},
+                        {"name": "mode", "in": "query", "schema": {"type": "string"}},
+                        {"name": "X-Mode", "in": "header", "schema": {"type": "string"}},
+                    ],
+                    "requestBody": {"required": True, "content": {"application/json": {"schema": ref("Thing")}, "multipart/form-data": {"schema": {"type": "object", "properties": {"file": {"type": "string", "format": "binary"}}}}}},
+                    "responses": {"200": jresp(ref("Thing"))},
+                },
                 "post": {
                     "operationId": "makeThing",
                     "tags": ["things"],
@@ -94,9 +106,12 @@ def _header_name(d: dict, t: str) -> None:
     _get(d)["parameters"][2]["name"] = t
 
 
+def _put(d): return d["paths"]["/things/{thingId}"]["put"]
+
+
 def _tag(d: dict, t: str) -> None:
     d["tags"][0]["name"] = t
-    for m in ("get", "post"):
+    for m in ("get", "post", "put"):
         d["paths"]["/things/{thingId}"][m]["tags"] = [t]
 
 
@@ -139,6 +154,10 @@ POSITIONS: dict[str, tuple[Callable[[dict, str], None], bool]] = {
     "example_text": (lambda d, t: d["components"]["schemas"]["Thing"]["properties"]["name"].__setitem__("example", t), False),
     "query_param_name": (_query_name, True),
     "header_param_name": (_header_name, True),
+    # the same text positions on an operation with SEVERAL request content types (a different generator path)
+    "query_param_name_multi": (lambda d, t: _put(d)["parameters"][1].__setitem__("name", t), False),
+    "header_param_name_multi": (lambda d, t: _put(d)["parameters"][2].__setitem__("name", t), False),
+    "operation_description_multi": (lambda d, t: _put(d).__setitem__("description", t), False),
     "param_description": (lambda d, t: _get(d)["parameters"][1].__setitem__("description", t), False),
     "operation_summary": (lambda d, t: _get(d).__setitem__("summary", t), False),
     "operation_description": (lambda d, t: _get(d).__setitem__("description", t), False),
@@ -155,7 +174,7 @@ POSITIONS: dict[str, tuple[Callable[[dict, str], None], bool]] = {
 
 # positions whose text also becomes an identifier get a benign prefix, so that the derived identifier is never empty
 # (empty / invalid derived identifiers are property C20's business, not C15's)
-NAME_PREFIX = {p: "q" for p in ("property_name", "query_param_name", "header_param_name", "discriminator_property", "enum_value", "discriminator_value", "tag_name")}
+NAME_PREFIX = {p: "q" for p in ("property_name", "query_param_name", "header_param_name", "query_param_name_multi", "header_param_name_multi", "discriminator_property", "enum_value", "discriminator_value", "tag_name")}
 
 
 # text that LOOKS like Python constructs (all "plain" for the lexical automaton, hostile for line-based text scanners)
